@@ -1,6 +1,6 @@
 #!/bin/bash
 # usage: try_patch.sh <patch> <function...>   (applies to /repo, runs gtverify func, reverts)
-p=$1; shift
+p=$(realpath $1); shift
 git -C /repo apply "$p" || exit 3
 /verif/bin/gtverify func "$@" 2>&1 | grep -v conda | grep -v trivial | grep -v "^  \[unsat" | grep -v "^  \[cover:sat" | cut -c1-400
-git -C /repo checkout -- . 
+git -C /repo apply -R "$p"
